@@ -122,3 +122,42 @@ func SetDfltTable(s *ref.Struct, v *ref.Val) {
 	x := New(s, v)
 	DfltTable = x.Elem().Interface().(Dflt)
 }
+
+// DfltOpt has optional fields only, all with non-zero declared defaults: a value
+// at its defaults is a bare STOP on the wire.
+type DfltOpt struct {
+	A int32   `frugal:"1,optional,i32"`
+	S string  `frugal:"2,optional,string"`
+	D float64 `frugal:"3,optional,double"`
+	L []int32 `frugal:"4,optional,list<i32>"`
+}
+
+func (p *DfltOpt) InitDefault() {
+	p.A, p.S, p.D = 7, "opt", 2.5
+	p.L = nil
+}
+
+type DfltOptOuter struct {
+	P  *DfltOpt           `frugal:"1,optional,DfltOpt"`
+	V  DfltOpt            `frugal:"2,default,DfltOpt"`
+	LP []*DfltOpt         `frugal:"3,optional,list<DfltOpt>"`
+	LV []DfltOpt          `frugal:"4,optional,set<DfltOpt>"`
+	MP map[int32]*DfltOpt `frugal:"5,optional,map<i32:DfltOpt>"`
+	MV map[string]DfltOpt `frugal:"6,optional,map<string:DfltOpt>"`
+}
+
+// DfltOptSpecs returns the specs of DfltOpt and DfltOptOuter.
+func DfltOptSpecs() (*ref.Struct, *ref.Struct) {
+	O := ref.ReqOptional
+	d := StaticSpec(reflect.TypeOf(DfltOpt{}), "DfltOpt", []*ref.Field{
+		{Name: "A", ID: 1, Req: O, Type: Sc(ref.KI32), Default: ref.Int(ref.KI32, 7)}, {Name: "S", ID: 2, Req: O, Type: Sc(ref.KString), Default: ref.Str("opt")},
+		{Name: "D", ID: 3, Req: O, Type: Sc(ref.KDouble), Default: ref.Double(2.5)}, {Name: "L", ID: 4, Req: O, Type: ListOf(Sc(ref.KI32)), Default: ref.NilOf(ref.KList)},
+	})
+	d.HasInit = true
+	o := StaticSpec(reflect.TypeOf(DfltOptOuter{}), "DfltOptOuter", []*ref.Field{
+		{Name: "P", ID: 1, Req: O, Type: StPtr(d)}, {Name: "V", ID: 2, Req: ref.ReqDefault, Type: StVal(d)},
+		{Name: "LP", ID: 3, Req: O, Type: ListOf(StPtr(d))}, {Name: "LV", ID: 4, Req: O, Type: SetOf(StVal(d))},
+		{Name: "MP", ID: 5, Req: O, Type: MapOf(Sc(ref.KI32), StPtr(d))}, {Name: "MV", ID: 6, Req: O, Type: MapOf(Sc(ref.KString), StVal(d))},
+	})
+	return d, o
+}
